@@ -155,6 +155,8 @@ Definition splitPeriod (pph segDurMS : Z) (mode : mpdType) (cont : bool) (startT
   if periodDur * 1000 =? 0 then Panic "splitPeriod: integer divide by zero" else
   let startPeriodNr := Z.quot startTimeMS (periodDur * 1000) in
   let endPeriodNr := Z.quot nowMS (periodDur * 1000) in
+  (* make([]*m.Period, 0, nrPeriods) *)
+  if endPeriodNr - startPeriodNr + 1 <? 0 then Panic "splitPeriod: makeslice: cap out of range" else
   mapM (periodOf mode cont periodDur ases) (seqZ startPeriodNr (Z.to_nat (endPeriodNr - startPeriodNr + 1))).
 
 (** lastPeriodStartTime: availabilityStartTime + start of the last period, in seconds. *)
